@@ -69,6 +69,20 @@ Proof.
 Qed.
 
 
+Lemma arith_lt_div it P X m' lenB : 0 < P -> m' = it * P + (P - 1) -> m' + 1 < lenB -> lenB <= X * P -> it < X.
+Proof.
+  intros HP Hm Hl Hx.
+  assert (H : (it + 1) * P < X * P) by (rewrite Nat.mul_add_distr_r; lia).
+  apply Nat.mul_lt_mono_pos_r in H; lia.
+Qed.
+
+Lemma arith_le_div P X Q lenB : 0 < P -> X * P <= lenB + P - 1 -> lenB <= Q * P -> X <= Q.
+Proof.
+  intros HP H1 H2.
+  assert (H : X * P < (Q + 1) * P) by (rewrite Nat.mul_add_distr_r; lia).
+  apply Nat.mul_lt_mono_pos_r in H; lia.
+Qed.
+
 Lemma tones_unique : forall t f i q, i = q * 2 ^ t + (2 ^ t - 1) -> q mod 2 = 0 -> i < 2 ^ f ->
   tones f i = t.
 Proof.
@@ -611,7 +625,9 @@ Section Spec.
         rewrite <- app_assoc. f_equal.
         rewrite (path_bu_rfc d _ (ups t A)) by (lia || exact HF1).
         rewrite (path_bu_rfc d _ (ups t A ++ ups t B)) by (try exact HF2; rewrite app_length; lia).
-        rewrite (rfc_path_app (e - t)) by (try assumption; try (apply ups_length_pos; assumption); nia).
+        assert (HXQ : length (ups t B) <= 2 ^ (e - t)).
+        { apply (arith_le_div (2 ^ t) _ _ (length B)); [exact Hpt | exact HbB2 | clear - HB He2 Epow; lia]. }
+        rewrite (rfc_path_app (e - t)) by (try assumption; try (apply ups_length_pos; assumption)).
         destruct (Nat.ltb_spec it (2 ^ (e - t))); [|lia].
         rewrite (mth_ups t B HBne). reflexivity.
       + (* the old tree reaches into the right half *)
@@ -640,17 +656,22 @@ Section Spec.
         destruct (ups_length_bounds t' B) as [HbB1' HbB2'].
         rewrite (ups_app t' A B (2 ^ (e - t'))) in * by lia.
         assert (HlA : length (ups t' A) = 2 ^ (e - t')) by (apply ups_length_mult; lia).
-        assert (Hit' : it' < length (ups t' B)) by nia.
+        assert (Hit' : it' < length (ups t' B)).
+        { apply (arith_lt_div it' (2 ^ t') _ (m - 2 ^ e - 1) (length B));
+            [exact Hpt' | exact Hd1' | clear - Hlt Hr HB; lia | exact HbB1']. }
+        assert (HXQ' : length (ups t' B) <= 2 ^ (e - t')).
+        { apply (arith_le_div (2 ^ t') _ _ (length B)); [exact Hpt' | exact HbB2' | clear - HB He2 Epow; lia]. }
         rewrite Eit, <- HlA. rewrite app_nth2 by lia.
-        replace (length (ups t' A) + it' - length (ups t' A)) with it' by lia.
-        assert (E0 : (length (ups t' A) + it' =? 0) = false) by (apply Nat.eqb_neq; rewrite HlA; pose proof (pow2_pos (e - t')); lia).
+        replace (length (ups t' A) + it' - length (ups t' A)) with it' by (clear; lia).
+        assert (E0 : (length (ups t' A) + it' =? 0) = false).
+        { apply Nat.eqb_neq. rewrite HlA. pose proof (pow2_pos (e - t')) as Hq. clear - Hq. lia. }
         rewrite E0. cbn [andb]. rewrite andb_false_r.
         rewrite <- app_assoc. cbn [app]. f_equal.
         rewrite (path_bu_rfc d _ (ups t' B)) by (lia || exact HF1).
         rewrite (path_bu_rfc d _ (ups t' A ++ ups t' B)) by (try exact HF2; rewrite app_length; lia).
-        rewrite (rfc_path_app (e - t')) by (try assumption; try (apply ups_length_pos; assumption); nia).
-        destruct (Nat.ltb_spec (length (ups t' A) + it') (2 ^ (e - t'))); [lia|].
-        replace (length (ups t' A) + it' - 2 ^ (e - t')) with it' by lia.
+        rewrite (rfc_path_app (e - t')) by (try assumption; try (apply ups_length_pos; assumption)).
+        destruct (Nat.ltb_spec (length (ups t' A) + it') (2 ^ (e - t'))) as [Hc|Hc]; [clear - Hc HlA; lia|].
+        replace (length (ups t' A) + it' - 2 ^ (e - t')) with it' by (clear - HlA; lia).
         rewrite (mth_ups t' A HAne). reflexivity.
   Qed.
 End Spec.
